@@ -473,8 +473,11 @@ func (p *Parent) run() int {
 	confirmed := map[string]Failure{}
 	okCount := map[string]int{}
 	var idxs []string
+	// a case that kills its worker (a fatal error, or the watchdog after a hang) would take the rest of a batch with it:
+	// such keys are re-run one process per case
+	alone := func(k string) bool { return strings.HasSuffix(k, "|fatal") || strings.HasSuffix(k, "|no-termination") }
 	for _, k := range keys {
-		if !strings.HasSuffix(k, "|fatal") {
+		if !alone(k) {
 			idxs = append(idxs, strconv.FormatInt(byKey[k][0].Index, 10))
 		}
 	}
@@ -503,7 +506,7 @@ func (p *Parent) run() int {
 		}()
 	}
 	for _, k := range keys {
-		if strings.HasSuffix(k, "|fatal") {
+		if alone(k) {
 			wg.Add(1)
 			go func(k string) {
 				defer wg.Done()
